@@ -135,6 +135,19 @@ class Cellspec:
         return torch.ones(self.wshape, dtype=torch.bool)
 
 
+def step_layer(layer, pre, post):
+    """one layer step with overridden postsynaptic spikes under the caller-side input contract: the two tensors must come back
+    untouched (else ContractViolation, which callers / the shard pool report as a violation) and are overwritten right after the call, so a
+    monitor / synapse / neuron that aliased them instead of copying is corrupted before the trainer reads it"""
+    from mc.common import ContractViolation, Guard
+
+    g = Guard(pre, post)
+    out = layer(pre, neuron_kwargs={"override": post})
+    if not g.release():
+        raise ContractViolation("input-mutated:layer-step", "the layer step modified the caller's input or override tensor in place")
+    return out
+
+
 def all_histories(T, nbits):
     """all boolean histories of length T over nbits-wide letters, as a (H, T, nbits) int list"""
     letters = list(itertools.product((0, 1), repeat=nbits))
